@@ -355,6 +355,33 @@ def clamp_rule(ctx, P):
                     return any(fn.constval(o) == bound for o in fn.ch(j))
                 if paths.guarded(f, s["node"], pred):
                     clamps.append((x, decl, s["node"], pred))
+        # the same clamp written as a conditional expression: x = (x > B) ? B : x  /  x = (x <= B) ? x : B
+        ternary = []
+        for s in paths.stores(f):
+            if s["op"] != "=" or s["rhs"] is None:
+                continue
+            cj = f.strip(s["rhs"])
+            if f.k(cj) != "Cond":
+                continue
+            x = s["path"]
+            q = paths.rel(f, f.ch(cj)[0], True, subst=False)
+            a1, a2 = f.ch(cj)[1], f.ch(cj)[2]
+            if q is None:
+                continue
+            hi_then = q[1] == "<" and q[0] == str(bound) and q[2] == x and f.constval(a1) == bound and f.canon(a2, subst=False) == x
+            lo_then = q[1] == "<=" and q[0] == x and q[2] == str(bound) and f.canon(a1, subst=False) == x and f.constval(a2) == bound
+            if hi_then or lo_then:
+                ternary.append(s)
+        if ternary and not clamps:
+            for n_, s in enumerate(ternary):
+                ctx.ok(r, key(f, "clamp-ternary#%d" % n_), f.where(s["node"]), "clamp written as a conditional expression")
+            # the clamped value must be the last computation of x before it is used: no other store to x follows on the way out
+            for s in ternary:
+                x = s["path"]
+                later = [t for t in paths.stores(f) if t["path"] == x and t["node"] != s["node"] and paths.may_reach(f, s["node"], lambda e, n2=t["node"]: e == n2) and not paths.may_reach(f, t["node"], lambda e, n2=s["node"]: e == n2)]
+                ctx.check(r, not later, key(f, "clamp-last:%s" % x), f.where(s["node"]), "`%s` is recomputed after the clamp" % x)
+            ctx.check(r, len(ternary) >= {"ms_cont_mgau_frame_eval": 2}.get(name, 1), key(f, "clamp-count"), f.where(f.root), "%s clamps the %s at %d place(s)" % (name, what, len(ternary)))
+            continue
         if not ctx.check(r, clamps, key(f, "clamp-exists"), f.where(f.root), "%s has no `if (x > %d) x = %d` clamp of the %s" % (name, bound, bound, what)):
             continue
         want = {"ms_cont_mgau_frame_eval": 2}.get(name, 1)
